@@ -83,7 +83,7 @@ func c17Pattern(e *Env) {
 	// the pattern buffer: the one whose String() is compiled last
 	var compile *ssa.Call
 	for _, c := range core.CallsNamed(f, "regexp.Compile") {
-		if sc, ok := core.Arg(c, 0).(*ssa.Call); ok && core.CalleeName(sc) == "bytes.Buffer.String" {
+		if sc, ok := core.Arg(c, 0).(*ssa.Call); ok && (core.CalleeName(sc) == "bytes.Buffer.String" || core.CalleeName(sc) == "strings.Builder.String") {
 			compile = c.(*ssa.Call)
 		}
 	}
@@ -101,12 +101,12 @@ func c17Pattern(e *Env) {
 			return
 		}
 		n := core.CalleeName(c)
-		if (strings.HasPrefix(n, "bytes.Buffer.Write") && onBuf(c, 0)) || (n == "fmt.Fprintf" && onBuf(c, 0)) {
+		if ((strings.HasPrefix(n, "bytes.Buffer.Write") || strings.HasPrefix(n, "strings.Builder.Write")) && onBuf(c, 0)) || (n == "fmt.Fprintf" && onBuf(c, 0)) {
 			writes = append(writes, c)
 		}
 	})
 	byteArg := func(c ssa.CallInstruction) int64 {
-		if core.CalleeName(c) != "bytes.Buffer.WriteByte" {
+		if n := core.CalleeName(c); n != "bytes.Buffer.WriteByte" && n != "strings.Builder.WriteByte" {
 			return -1
 		}
 		k, _ := core.ConstInt(core.Arg(c, 1))
@@ -152,7 +152,7 @@ func c17Pattern(e *Env) {
 		n := core.CalleeName(w)
 		var vals []ssa.Value
 		switch n {
-		case "bytes.Buffer.WriteString":
+		case "bytes.Buffer.WriteString", "strings.Builder.WriteString":
 			vals = []ssa.Value{core.Arg(w, 1)}
 		case "fmt.Fprintf":
 			// varargs: stores into the backing array of the []any slice
